@@ -423,7 +423,7 @@ def worker(ctx):
 def run(env):
     quick = env.tier == "quick"
     stats = core.run_workers(__name__, "worker", PROP, env.tier, env.seed, env.driver, env.hooks_on,
-                             40 if quick else 400, {"units_per_worker": 3000 if quick else 80000})
+                             40 if quick else 400, {"units_per_worker": 10000 if quick else 80000})
     return core.finish(PROP, env.tier, env.seed, LEVEL, stats, env.t0, RULE, min_conclusive=5000 if quick else 50000,
                        assumptions=["number-as-string operands are spelt -?(digits[.digits]|.digits)[(e|E)[+-]?digits] (leading zeros allowed); other spellings are not claimed by the documentation",
                                     "sorting among integers >= 2^53 is only required to return the same multiset (C07 excludes their order); templates sort by a constant"])
